@@ -53,3 +53,67 @@ def run_scan_case(case: dict) -> dict:
 def tlc_record(rec, rid):
     return {"id": rid, "func": rec["func"], "vals": rec["vals"], "codes": rec["codes"], "out": rec["out"],
             "intdata": rec.get("dtype", "f8")[0] in "iub"}
+
+
+# ------------------------------------------------------------------ task level
+def _proj_aligned(a, with_codes):
+    import numpy as np
+
+    if a is None:
+        return None
+    vals = [pv(x, 1e-9) for x in np.asarray(a.array).reshape(-1)]
+    codes = [int(x) for x in np.asarray(a.group_idx).reshape(-1)]
+    return {"vals": vals, "codes": codes} if with_codes else {"groups": codes, "vals": vals}
+
+
+def _proj_state(s):
+    st = _proj_aligned(s.state, False) if s.state is not None else None
+    rs = _proj_aligned(s.result, True) if s.result is not None else None
+    return {"hasstate": st is not None, "state": st or {"groups": [], "vals": []},
+            "hasresult": rs is not None, "result": rs or {"vals": [], "codes": []}}
+
+
+def run_scan_graph_case(case: dict) -> dict:
+    """execute the real dask_groupby_scan graph task by task; one record per flox task"""
+    import random
+
+    from . import sched
+
+    warnings.filterwarnings("ignore")
+    rec = {"case": case}
+    try:
+        res = build_scan(case)
+    except Exception as e:  # noqa: BLE001
+        rec.update(exc=type(e).__name__, msg=str(e)[:300], phase="call")
+        return rec
+    if not hasattr(res, "dask"):
+        rec["notlazy"] = True
+        return rec
+    graph = sched.graph_of(res)
+    order = sched.topo_order(graph, random.Random(case.get("order_seed", 0)))
+    tasks = []
+    func = case["func"]
+
+    def on_task(k, node, store, out):
+        d = sched.describe(node)
+        kd = d["kind"]
+        deps = sched.ordered_deps(node)
+        try:
+            if kd in ("scan:chunk_scan", "scan:grouped_reduce"):
+                inp = store[deps[0]]
+                a = _proj_aligned(inp, True)
+                tasks.append({"kind": "scan" if kd.endswith("chunk_scan") else "reduce", "func": func, "vals": a["vals"], "codes": a["codes"],
+                              "out": _proj_state(out)})
+            elif kd == "scan:scan_binary_op":
+                left, right = store[deps[0]], store[deps[1]]
+                tasks.append({"kind": "binop", "func": func, "left": _proj_state(left), "right": _proj_state(right), "out": _proj_state(out)})
+        except ProjectionError as e:
+            tasks.append({"kind": "projection-error", "msg": str(e)})
+
+    try:
+        sched.execute(graph, order, on_task=on_task)
+    except Exception as e:  # noqa: BLE001
+        rec.update(exc=type(e).__name__, msg=str(e)[:300], phase="compute")
+        return rec
+    rec["tasks"] = tasks
+    return rec
